@@ -56,6 +56,7 @@ func NewProcessor(queue chan Operator, buffer int, threads int) (p *Processor) {
 					p.out <- Result{nil, fmt.Errorf("concurrent: processor panic: %v", err)}
 				}
 				p.work <- struct{}{}
+				verifStep("proc.exit.token")
 				// The last worker to finish closes the results channel. Count
 				// exits rather than tokens: all tokens are also present before
 				// a worker has started, and two workers can see them together.
